@@ -216,14 +216,6 @@ fn easing_of(e: &str, p: i64) -> Easing {
 	}
 }
 
-/// concrete value of an abstract output for the owner's type
-#[derive(Clone, Copy, PartialEq)]
-enum Real {
-	F64,
-	Db,
-	Speed,
-}
-
 struct Vs {
 	fixed: Option<f64>,
 	m: u32,
@@ -274,7 +266,6 @@ enum ModH {
 struct ParamH {
 	real: String,
 	ch: char,
-	active: bool,
 	prev_time: f64,
 	_keep: Vec<Box<dyn std::any::Any>>,
 }
@@ -469,7 +460,7 @@ fn run(sc: &J, t: &mut Tracer) {
 					}
 					r => panic!("unknown owner {r}"),
 				}
-				params.insert(q, ParamH { real: real.to_string(), ch, active: false, prev_time: 0.0, _keep: keep });
+				params.insert(q, ParamH { real: real.to_string(), ch, prev_time: 0.0, _keep: keep });
 				Some(json!({"a": "link", "p": q, "own": own, "real": real, "vs": vs_json(&vs, &step["vs"]),
 					"dk": real == "psound", "dflt": 0}))
 			}
@@ -478,9 +469,6 @@ fn run(sc: &J, t: &mut Tracer) {
 				let res = sim.callback(frames);
 				if let Some(msg) = res.panicked {
 					return Some(json!({"a": "panic", "in": "callback", "msg": msg}));
-				}
-				for p in params.values_mut() {
-					p.active = true;
 				}
 				let chunks = std::mem::take(&mut sh.lock().unwrap().chunks);
 				let mut evs = vec![json!({"a": "cb", "frames": frames})];
